@@ -172,7 +172,7 @@ def blocks_part(rep, tier, rng, bad):
     blk = T["names"].index("block")
     block_rules = {i for i, l in enumerate(T["rule_lhs"]) if l == blk}
     drv = common.extract_driver(); har = common.build_harness("asan", "ptrace")
-    n = 60 if tier == "quick" else 1500
+    n = 60 if tier == "quick" else 6000
     lines = []
     for i in range(n):
         g = Gen(rng, False, notes=False, refs=False)
@@ -222,7 +222,7 @@ def run(rep, tier, seed):
     res = common.coq_prove("Properties_C03")
     rep.add_obligations(res, "Properties_C03")
     rng = random.Random("C03-%d" % seed)
-    n = 400 if tier == "quick" else 12000
+    n = 400 if tier == "quick" else 60000
     lines, exts, metas = [], [], []
     for i in range(n):
         compat = (i % 4 == 3); smart = (i % 2 == 0)
@@ -255,7 +255,7 @@ def run(rep, tier, seed):
     if probe.ok() and b"<code>1 &gt; 0</code>" not in probe.out:
         rep.violation("lone-angle-swallows-code-span", "a lone '<' is paired with a '>' inside a later code span", dict(case=dict(tokens="", source="a < `1 > 0`")))
     # compositionality on the implementation itself: independent blocks, any order
-    m = 100 if tier == "quick" else 3000
+    m = 100 if tier == "quick" else 12000
     comp_ok = 0
     clines, cexts, cmeta = [], [], []
     for i in range(m):
